@@ -130,6 +130,7 @@ def run(ctx):
     c05.r_len(ctx, P, only=r'crypto::\w+::SecretKey|types::params|packet::key|composed::signed_key|composed::key|types::mpi|PublicParams|SecretParams|types::s2k', floors=(70, 30))
     c05.header_freshness(ctx, P)
     c05.mpi_padding_order(ctx, P)
+    c05.raw_mpi_only_from_parsed_data(ctx, P)
 
 
 META = {'KeyFlags': 'keyflags', 'Features': 'features', 'PreferredSymmetricAlgorithms': 'preferred_symmetric_algorithms',
